@@ -334,6 +334,7 @@ func (l *log) GetByTime(start time.Time) (message.Message, error) {
 	l.readersMu.RLock()
 	defer l.readersMu.RUnlock()
 
+	headEmpty := false
 	for i := len(l.readers) - 1; i >= 0; i-- {
 		rdr := l.readers[i]
 
@@ -349,6 +350,7 @@ func (l *log) GetByTime(start time.Time) (message.Message, error) {
 			if i == 0 {
 				return message.Invalid, err
 			}
+			headEmpty = true
 		case index.ErrTimeBeforeStart:
 			// not in this segment, try the rest
 			if i == 0 {
@@ -356,13 +358,13 @@ func (l *log) GetByTime(start time.Time) (message.Message, error) {
 			}
 		case index.ErrTimeAfterEnd:
 			// time is between end of this and begin next
-			if i < len(l.readers)-1 {
+			if i < len(l.readers)-1 && !(headEmpty && i == len(l.readers)-2) {
 				nextRdr := l.readers[i+1]
-				if msg, err := nextRdr.Get(message.OffsetOldest); err != index.ErrOffsetIndexEmpty {
-					return msg, err
-				}
-				// the next segment is the empty head, nothing is after this segment
+				return nextRdr.Get(message.OffsetOldest)
 			}
+			// the next segment is the head and it was empty when we looked: nothing is after this
+			// segment. Do not look at the head again, a message published in the meantime
+			// can carry a time before the requested one
 			return message.Invalid, errTimeNotFound
 		default:
 			return message.Invalid, err
